@@ -1,7 +1,8 @@
 (* C14 — Host and plugin configurations interoperate exactly when compatible.
    Statements only; proofs in Proofs/InteropP.v (finite case analysis over the matrix dimensions, checked by the kernel). *)
-From Coq Require Import List NArith ZArith Bool.
-From GP Require Import Base.Val Model.Interop Proofs.InteropP.
+From Coq Require Import List NArith ZArith Bool String.
+From GP Require Import Base.Val Base.Bytes Base.GoStrings Model.Negotiate Model.Handshake Model.Serve Model.Interop Model.Params
+  Proofs.InteropP Proofs.ServeP Proofs.RoundTripP Proofs.AgreeP.
 Import ListNotations.
 
 (* the outcome type of the model has no "hang", "panic" or "silently downgraded" constructor: every
@@ -23,6 +24,69 @@ Proof. exact mismatch_kinds. Qed.
 
 Theorem C14_protocol_allowed : forall h p, h_launch h <> LReattach -> interop h p = Works -> allowed h (p_wire p) = true.
 Proof. exact works_protocol_allowed. Qed.
+
+(* the two ends of a compatible pair, over the real line: whatever a plugin's Serve prints once its cookie gate is open
+   (any negotiated version, any bar-free address, a base64 certificate or none, with or without the multiplexing field)
+   is accepted by a host whose configuration has the announced version, allows the announced protocol, can resolve the
+   address, has a TLS config when a certificate is announced and -- when it asked for multiplexing over gRPC -- told the
+   plugin so; and the host ends up with exactly the plugin's version, protocol and address.  Constants and code-shape
+   parameters of both ends are the generated ones. *)
+Theorem C14_handshake_agreement : forall sc env addr cert hc o v p sset cset,
+  gate_ok sc env = true ->
+  server_pick (sv_serve sc) (getenv env (bs "PLUGIN_PROTOCOL_VERSIONS")) = (v, p, sset) -> in64 v ->
+  no_bar addr = true -> no_bar cert = true -> forallb plain_byte cert = true ->
+  mget (client_map (Handshake.h_client hc)) v = Some cset ->
+  o_translate_ok o = true -> (bytes_eqb (o_net o) (bs "tcp") || bytes_eqb (o_net o) (bs "unix")) = true -> o_resolves o = true ->
+  mem_bytes (proto_bytes p) (Handshake.h_allowed hc) = true ->
+  ((hp_cert_len gen_hs_params < List.length cert)%nat -> o_cert_parses o = true /\ Handshake.h_has_tls hc = true) ->
+  (Handshake.h_mux hc = true -> p = PGrpc -> getenv env (svp_mux_key gen_sv_params) <> []) ->
+  exists line, serve gen_sv_params sc env addr cert = [SvListen; SvPrint line; SvSwapStdio] /\
+    fst (process_line gen_hs_params hc o line) =
+      OOk {| a_net := o_net o; a_addr := o_canon o; a_resolved := true; a_proto := proto_bytes p; a_version := v; a_set := ps_id cset |}.
+Proof.
+  apply (handshake_agreement gen_sv_params gen_hs_params); try reflexivity.
+  - unfold in64, int_min, int_max. cbn. split; discriminate.
+  - cbn. repeat constructor.
+Qed.
+
+(* ... and the mismatches surface at start, with the plugin terminated: the announced version is not one the host has;
+   the announced protocol is not allowed; multiplexing was asked for from a plugin that does not advertise it *)
+Lemma gen_core_eq : svp_core gen_sv_params = hp_core gen_hs_params. Proof. reflexivity. Qed.
+Lemma gen_core64 : in64 (svp_core gen_sv_params). Proof. unfold in64, int_min, int_max. cbn. split; discriminate. Qed.
+Lemma gen_min : (hp_min_fields gen_hs_params <= 6)%nat. Proof. cbn. repeat constructor. Qed.
+
+Theorem C14_version_mismatch_at_start : forall sc env addr cert hc o v p sset,
+  gate_ok sc env = true ->
+  server_pick (sv_serve sc) (getenv env (bs "PLUGIN_PROTOCOL_VERSIONS")) = (v, p, sset) -> in64 v ->
+  no_bar addr = true -> no_bar cert = true -> forallb plain_byte cert = true ->
+  mget (client_map (Handshake.h_client hc)) v = None ->
+  exists line, serve gen_sv_params sc env addr cert = [SvListen; SvPrint line; SvSwapStdio] /\
+    fst (process_line gen_hs_params hc o line) = OErr EAppVersion /\ has_kill (snd (process_line gen_hs_params hc o line)) = true.
+Proof. exact (version_mismatch_is_start_error gen_sv_params gen_hs_params eq_refl gen_core_eq gen_core64 gen_min). Qed.
+
+Theorem C14_protocol_mismatch_at_start : forall sc env addr cert hc o v p sset cset,
+  gate_ok sc env = true ->
+  server_pick (sv_serve sc) (getenv env (bs "PLUGIN_PROTOCOL_VERSIONS")) = (v, p, sset) -> in64 v ->
+  no_bar addr = true -> no_bar cert = true -> forallb plain_byte cert = true ->
+  mget (client_map (Handshake.h_client hc)) v = Some cset ->
+  o_translate_ok o = true -> addr_known o = true -> o_resolves o = true ->
+  mem_bytes (proto_bytes p) (Handshake.h_allowed hc) = false ->
+  exists line, serve gen_sv_params sc env addr cert = [SvListen; SvPrint line; SvSwapStdio] /\
+    fst (process_line gen_hs_params hc o line) = OErr EProtocol /\ has_kill (snd (process_line gen_hs_params hc o line)) = true.
+Proof. exact (protocol_mismatch_is_start_error gen_sv_params gen_hs_params eq_refl gen_core_eq gen_core64 gen_min). Qed.
+
+Theorem C14_mux_unsupported_at_start : forall sc env addr cert hc o v p sset cset,
+  gate_ok sc env = true ->
+  server_pick (sv_serve sc) (getenv env (bs "PLUGIN_PROTOCOL_VERSIONS")) = (v, p, sset) -> in64 v ->
+  no_bar addr = true -> no_bar cert = true -> forallb plain_byte cert = true ->
+  mget (client_map (Handshake.h_client hc)) v = Some cset ->
+  o_translate_ok o = true -> addr_known o = true -> o_resolves o = true ->
+  mem_bytes (proto_bytes p) (Handshake.h_allowed hc) = true ->
+  ((hp_cert_len gen_hs_params < List.length cert)%nat -> o_cert_parses o = true /\ Handshake.h_has_tls hc = true) ->
+  Handshake.h_mux hc = true -> p = PGrpc -> getenv env (svp_mux_key gen_sv_params) = [] ->
+  exists line, serve gen_sv_params sc env addr cert = [SvListen; SvPrint line; SvSwapStdio] /\
+    fst (process_line gen_hs_params hc o line) = OErr EMuxUnsupported /\ has_kill (snd (process_line gen_hs_params hc o line)) = true.
+Proof. exact (mux_unsupported_is_start_error gen_sv_params gen_hs_params eq_refl eq_refl gen_core_eq gen_core64 gen_min). Qed.
 
 Example C14_nonvacuous :
   interop {| h_allow_net := false; h_allow_grpc := true; h_tls := HAuto; h_mux := true; h_launch := LRunnerFunc |}
